@@ -75,9 +75,9 @@ CHECKS = {
    note='The full 2^128 space is not enumerable; exhaustive only inside the stated families. SHA-256/blake2b/ed25519 trusted.',
    technique='exhaustive enumeration of bounded input families against an independent reference', design='§3 E7, §4 C20'),
  'C18': dict(level='model_checking', engine='sched',
-   text='Exhaustive schedule enumeration (iterative preemption bounding, bound 2 quick / 4 thorough) of the real threadgroup.ThreadGroup under a cooperative scheduler: Stop never returns while an admitted thread is running, Add after Stop is rejected, no deadlock, no WaitGroup misuse.',
-   note='Interleavings at lock/WaitGroup granularity; memory-model effects only via the separate free-running -race pass. Go runtime trusted.',
-   technique='stateless model checking of the implementation: cooperative scheduler + DFS over schedules with preemption bounding', design='§3 E3, §4 C18'),
+   text='(a) Exhaustive schedule enumeration (iterative preemption bounding, bound 2 quick / 4 thorough) of the real threadgroup.ThreadGroup under a cooperative scheduler: Stop never returns while an admitted thread is running, Add after Stop is rejected, no deadlock, no WaitGroup misuse. (b) Every environment-event sequence (send/release/close, length 5 quick / 6 thorough, 9 limit configurations incl. 0/negative) against a real syncer.Syncer over an in-memory network with handlers parked at a gate inside the ChainManager: exact per-peer and per-subnet high-water marks, back-pressure vs. drop compared step by step with a reference model, Close returns with no handler running, RPCs after Close are refused. (c) Every sequence of connection events (connect / handshake / drop / listener-Close begins / ends, length 5 quick / 7 thorough, caps 0,1,2) against a real Syncer: inbound cap never exceeded, no slot leak, Close/Run return and leave no peer or open connection.',
+   note='Interleavings at lock/WaitGroup granularity for (a); (b),(c) control the environment (who sends what when, how long the listener Close takes) and wait for quiescence observed at the in-memory connections, the goroutine schedule inside one environment step is the runtime\'s. Memory-model effects only via a separate free-running -race pass. rhp4.Server.Close and SingleAddressWallet.Close are tg.Stop(): covered by (a) through the identical Add/AddContext worker pattern. Go runtime, mux and go.sia.tech/core trusted.',
+   technique='stateless model checking of the implementation: cooperative scheduler + DFS over schedules with preemption bounding (threadgroup); exhaustive bounded enumeration of environment-event sequences against the real Syncer with a reference model (slots, peer caps, shutdown)', design='§3 E3, §4 C18'),
 }
 NOT_YET = 'check not built yet in this round (planned, see DESIGN.md §4)'
 
